@@ -26,6 +26,11 @@ def gen_cases(tier, seed):
             if (n, t) not in kind_of:
                 kind_of[(n, t)] = rnd.choice(PLAIN_KINDS) if cls == 0 else ("fundecl" if cls == 1 else rnd.choice(["ptemplate", "stemplate"]))
             items.append("%s:%d:%d" % (kind_of[(n, t)], n, t))
+            if rnd.random() < 0.08:
+                # a declaration attempt that is refused (alias of an initializer without a type): under a name used elsewhere or not at all
+                items.append("refused:%d:0" % rnd.randrange(10))
+        if c % 5 == 0:
+            items.insert(0, "refused:%d:0" % rnd.randrange(10))
         cases.append("het " + ",".join(items))
     n_hom = 150 if tier == "quick" else 2000
     for c in range(n_hom):
@@ -44,6 +49,10 @@ def oracle_het(case, d):
     errs = []
     a = case.split()[1]
     items = [] if a == "-" else [x.split(":") for x in a.split(",")]
+    nref = sum(1 for x in items if x[0] == "refused")
+    items = [x for x in items if x[0] != "refused"]
+    if d.get("refusals", "0/0") != "%d/%d" % (nref, nref):
+        errs.append(("refusal", "an alias whose initializer has no type was accepted: refused/attempted = " + d.get("refusals", "?")))
     h = [(int(n), int(t)) for _, n, t in items]
     n = len(h)
     want_idx = ",".join(map(str, range(n))) or "-"
@@ -130,7 +139,13 @@ def check(res):
     outs, crashes = run_cases(exe, cases, env=SAN_ENV)
     for idx, err in crashes[:3]:
         res.violation("crash", "scope driver aborted (sanitizer report or crash)", {"case": cases[idx][:2000], "stderr": err})
-    pm = run([model, "scope"], input="\n".join(cases) + "\n", timeout=3600)
+    def for_model(c):            # refused attempts declare nothing: the model never sees them
+        w = c.split()
+        if w[0] != "het" or w[1] == "-":
+            return c
+        keep = [x for x in w[1].split(",") if not x.startswith("refused:")]
+        return "het " + (",".join(keep) or "-")
+    pm = run([model, "scope"], input="\n".join(for_model(c) for c in cases) + "\n", timeout=3600)
     ml = pm.stdout.splitlines()
     keys = set()
     ndiff = 0
@@ -152,7 +167,7 @@ def check(res):
                 res.violation("oracle:" + key, what, {"case": c[:1500], "observed": {x: y[:300] for x, y in d.items()},
                                                       "rerun": "echo '<case>' | build/<hash>/asan/scope_driver"})
         # the interleaved lookups ("probes") are judged by the oracle only; the extracted model does not produce them
-        if not errs and i < len(ml) and ml[i] != re.sub(r" probes=\S+", "", o):
+        if not errs and i < len(ml) and ml[i] != re.sub(r" (probes|refusals)=\S+", "", o):
             ndiff += 1
             if ndiff <= 3:
                 res.violation("diff", "model (Scope.v) and implementation disagree although the oracle is satisfied",
